@@ -95,3 +95,11 @@ Print Assumptions C01_whole_image_directory.
 Theorem C01_section_operations_as_modelled : section_ops = SectionOps.expected_section_ops.
 Proof. exact SectionOps.section_ops_as_modelled. Qed.
 Print Assumptions C01_section_operations_as_modelled.
+
+(* (7) Every step of the plan that writes a directory entry names, in the CURRENT source, the stream type the model gives it
+   (the MINIDUMP_STREAM_TYPE numbers of the format), in plan order. *)
+Theorem C01_step_types_as_modelled :
+  map (fun p => (fst p, SectionOps.stream_number (snd p))) step_stream_names
+  = flat_map (fun p => match stream_type (fst p) with Some t => [(fst p, Some t)] | None => [] end) stream_plan.
+Proof. exact SectionOps.step_types_as_modelled. Qed.
+Print Assumptions C01_step_types_as_modelled.
